@@ -23,7 +23,10 @@ def PcSpec (g b : Bool) (c : Conn) (k : Chunk) (c' : Conn) (o : Out) : Prop :=
             (b = true → (c.maxChunks > 0 → c.pending.length < c.maxChunks) ∧
                         (c.maxMsg > 0 → c.bytes + k.size ≤ c.maxMsg))))) ∨
      (∃ ch tk rq, o = .opnResponse ch tk rq ∧ c'.phase = c.phase ∧ c'.pending = [] ∧ k.ty = .opn ∧ k.fin = .final ∧
-        (c.issued = false → (if c.pending.isEmpty then k.rk else c.curRk) = .openIssue)) ∨
+        (c.issued = false → ∃ m n, (if c.pending.isEmpty then k.rk else c.curRk) = .open false m true n ∧ m ≠ .invalid) ∧
+        c'.issued = true) ∨
+     (∃ e rq, o = .opnFault e rq ∧ c'.phase = c.phase ∧ c'.pending = [] ∧ c'.issued = c.issued ∧ k.ty = .opn ∧
+        k.fin = .final) ∨
      (∃ n rq, o = .service n rq ∧ c'.phase = c.phase ∧ c'.pending = [] ∧ c'.issued = c.issued ∧ k.ty = .msg ∧
         k.fin = .final ∧ (g = true → c.issued = true)))
 
@@ -81,23 +84,32 @@ theorem processChunk_spec (g b : Bool) (c : Conn) (k : Chunk) :
                     | opn =>
                       simp only
                       cases hrk : (if c.pending.isEmpty then k.rk else c.curRk) with
-                      | openIssue =>
-                        simp only
-                        split
-                        · exact closeWith_spec g b c _ k _ rfl rfl rfl rfl
-                        · simp [PcSpec, hfinal]
-                          exact ⟨hty, fun _ => by simpa using hrk⟩
-                      | openRenew =>
+                      | «open» renew mode pvSame nonce =>
                         simp only
                         split
                         · exact closeWith_spec g b c _ k _ rfl rfl rfl rfl
                         · split
-                          · exact closeWith_spec g b c _ k _ rfl rfl rfl rfl
-                          · rename_i hiss
-                            simp [PcSpec, hfinal]
-                            exact ⟨hty, fun h => by simp [h] at hiss⟩
+                          · simp [PcSpec, hfinal]; exact hty
+                          · rename_i hpv
+                            split
+                            · exact closeWith_spec g b c _ k _ rfl rfl rfl rfl
+                            · rename_i hren
+                              split
+                              · rename_i hmode
+                                cases renew <;> simp [PcSpec, hfinal] <;> exact hty
+                              · rename_i hmode
+                                have hpv' : pvSame = true := by simpa using hpv
+                                cases renew with
+                                | false =>
+                                  simp [PcSpec, hfinal]
+                                  exact ⟨hty, fun _ => ⟨mode, ⟨nonce, by subst hpv'; simpa using hrk⟩, hmode⟩⟩
+                                | true =>
+                                  simp [PcSpec, hfinal]
+                                  refine ⟨hty, fun h => ?_⟩
+                                  simp [h] at hren
                       | getEndpoints => exact closeWith_spec g b c _ k _ rfl rfl rfl rfl
                       | createSession => exact closeWith_spec g b c _ k _ rfl rfl rfl rfl
+                      | openBadEnum => exact closeWith_spec g b c _ k _ rfl rfl rfl rfl
                       | close => exact closeWith_spec g b c _ k _ rfl rfl rfl rfl
                       | junk => exact closeWith_spec g b c _ k _ rfl rfl rfl rfl
                     | msg =>
@@ -113,8 +125,8 @@ theorem processChunk_spec (g b : Bool) (c : Conn) (k : Chunk) :
                         split
                         · simp [PcSpec, hfinal]; exact ⟨hty, hiss⟩
                         · simp [PcSpec, hfinal]; exact ⟨hty, hiss⟩
-                      | openIssue => exact closeWith_spec g b c _ k _ rfl rfl rfl rfl
-                      | openRenew => exact closeWith_spec g b c _ k _ rfl rfl rfl rfl
+                      | «open» _ _ _ _ => exact closeWith_spec g b c _ k _ rfl rfl rfl rfl
+                      | openBadEnum => exact closeWith_spec g b c _ k _ rfl rfl rfl rfl
                       | close => exact closeWith_spec g b c _ k _ rfl rfl rfl rfl
                       | junk => exact closeWith_spec g b c _ k _ rfl rfl rfl rfl
 
@@ -164,7 +176,7 @@ theorem pc_bounded (g : Bool) (c : Conn) (k : Chunk) (h : Bounded c) :
     intro c' hp; simp [Bounded, Conn.bytes, hp]
   have hsame : ∀ c' : Conn, c'.pending = c.pending → c'.maxChunks = c.maxChunks → c'.maxMsg = c.maxMsg → Bounded c' := by
     intro c' hp h2 h3; simpa [Bounded, Conn.bytes, hp, h2, h3] using h
-  rcases hcase with ⟨e, _, _, _, hp⟩ | ⟨_, _, _, _, hp⟩ | ⟨_, _, _, _, _, hp, _⟩ | ⟨_, _, _, _, hp, _⟩
+  rcases hcase with ⟨e, _, _, _, hp⟩ | ⟨_, _, _, _, hp⟩ | ⟨_, _, _, _, _, hp, _⟩ | ⟨_, _, _, _, hp, _⟩ | ⟨_, _, _, _, hp, _⟩
   · rcases hp with hp | hp
     · exact hnil _ hp
     · exact hsame _ hp e2 e3
@@ -178,6 +190,7 @@ theorem pc_bounded (g : Bool) (c : Conn) (k : Chunk) (h : Bounded c) :
         have := b2 hm
         simp only [Conn.bytes, hp, List.map_append, List.map_cons, List.map_nil, sum_snoc, e3]
         simpa [Conn.bytes] using this
+  · exact hnil _ hp
   · exact hnil _ hp
   · exact hnil _ hp
 
@@ -334,10 +347,11 @@ theorem no_service_before_open (b : Bool) (l : Lens) (mc mm : Nat) (fs : List Fr
       · rw [hs]; exact ih _ hi
       · rw [hs]
         obtain ⟨_, _, _, hcase⟩ := processChunk_spec true b c k
-        rcases hcase with ⟨e, ho, _, hiss, _⟩ | ⟨ho, _, _, hiss, _⟩ | ⟨ch, tk, rq, ho, _⟩ | ⟨n, rq, ho, _, _, _, _, _, hg⟩
+        rcases hcase with ⟨e, ho, _, hiss, _⟩ | ⟨ho, _, _, hiss, _⟩ | ⟨ch, tk, rq, ho, _⟩ | ⟨e, rq, ho, _, _, hiss, _⟩ | ⟨n, rq, ho, _, _, _, _, _, hg⟩
         · rw [ho]; exact ih _ (by rw [hiss]; exact hi)
         · rw [ho]; exact ih _ (by rw [hiss]; exact hi)
         · rw [ho]; rfl
+        · rw [ho]; exact ih _ (by rw [hiss]; exact hi)
         · have := hg rfl; rw [hi] at this; simp at this
   exact gen fs _ rfl
 
@@ -345,13 +359,40 @@ theorem no_service_before_open (b : Bool) (l : Lens) (mc mm : Nat) (fs : List Fr
 connection without an issued channel is never answered) -/
 theorem first_open_is_issue (g b : Bool) (c : Conn) (k : Chunk) (hi : c.issued = false) (ch tk rq : Nat)
     (h : (processChunk g b c k).2 = .opnResponse ch tk rq) :
-    (if c.pending.isEmpty then k.rk else c.curRk) = .openIssue ∧ k.ty = .opn ∧ k.fin = .final := by
+    (∃ m n, (if c.pending.isEmpty then k.rk else c.curRk) = .open false m true n ∧ m ≠ .invalid) ∧
+      k.ty = .opn ∧ k.fin = .final ∧ (processChunk g b c k).1.issued = true := by
   obtain ⟨_, _, _, hcase⟩ := processChunk_spec g b c k
-  rcases hcase with ⟨e, ho, _⟩ | ⟨ho, _⟩ | ⟨_, _, _, _, _, _, hty, hfin, hrk⟩ | ⟨n, rq', ho, _⟩
+  rcases hcase with ⟨e, ho, _⟩ | ⟨ho, _⟩ | ⟨_, _, _, _, _, _, hty, hfin, hrk, hset⟩ | ⟨_, _, ho, _⟩ | ⟨n, rq', ho, _⟩
   · rw [ho] at h; simp at h
   · rw [ho] at h; simp at h
-  · exact ⟨hrk hi, hty, hfin⟩
+  · exact ⟨hrk hi, hty, hfin, hset⟩
   · rw [ho] at h; simp at h
+  · rw [ho] at h; simp at h
+
+/-- the channel counts as issued exactly from a SUCCESSFUL OpenSecureChannel on: a request that is
+refused with a ServiceFault (protocol version, security mode), stored, or answered with an error leaves
+`issued` as it was — only an OpenSecureChannel *response* sets it -/
+theorem issued_only_by_open_response (g b : Bool) (c : Conn) (k : Chunk) :
+    (processChunk g b c k).1.issued = c.issued ∨
+    (∃ ch tk rq, (processChunk g b c k).2 = .opnResponse ch tk rq ∧ (processChunk g b c k).1.issued = true) := by
+  obtain ⟨_, _, _, hcase⟩ := processChunk_spec g b c k
+  rcases hcase with ⟨_, _, _, hiss, _⟩ | ⟨_, _, _, hiss, _⟩ | ⟨ch, tk, rq, ho, _, _, _, _, _, hset⟩ | ⟨_, _, _, _, _, hiss, _⟩ |
+      ⟨_, _, _, _, _, hiss, _⟩
+  · exact Or.inl hiss
+  · exact Or.inl hiss
+  · exact Or.inr ⟨ch, tk, rq, ho, hset⟩
+  · exact Or.inl hiss
+  · exact Or.inl hiss
+
+/-- in particular an Issue that asks for an invalid security mode is refused and does NOT open the door
+for service requests (the seeded change that round 3's generator missed) -/
+theorem refused_issue_then_service :
+    run (Conn.init lens0 0 0)
+      [.hel .valid,
+       .chunk ⟨.opn, ⟨0, 1, 1⟩, .final, 129, .open false .invalid true none, .ok⟩,
+       .chunk ⟨.msg, ⟨0, 2, 2⟩, .final, 94, .getEndpoints, .ok⟩]
+    = [.ack, .opnFault "BadSecurityModeRejected" 1, .closeErr "BadTcpSecureChannelUnknown"] := by
+  decide
 
 /-- a FINAL CloseSecureChannel chunk always ends the connection, whatever else is going on -/
 theorem clo_closes (g b : Bool) (c : Conn) (k : Chunk) (hty : k.ty = .clo) (hfin : k.fin = .final) :
@@ -365,9 +406,10 @@ theorem clo_closes (g b : Bool) (c : Conn) (k : Chunk) (hty : k.ty = .clo) (hfin
   · simp at hk; subst hk
     rw [hs]
     obtain ⟨_, _, _, hcase⟩ := processChunk_spec g b c k
-    rcases hcase with ⟨e, ho, hp, _⟩ | ⟨_, hnf, _⟩ | ⟨_, _, _, _, _, _, ht, _⟩ | ⟨_, _, _, _, _, _, ht, _⟩
+    rcases hcase with ⟨e, ho, hp, _⟩ | ⟨_, hnf, _⟩ | ⟨_, _, _, _, _, _, ht, _⟩ | ⟨_, _, _, _, _, _, ht, _⟩ | ⟨_, _, _, _, _, _, ht, _⟩
     · exact ⟨hp, by rw [ho]; simp⟩
     · exact absurd hfin hnf
+    · rw [hty] at ht; simp at ht
     · rw [hty] at ht; simp at ht
     · rw [hty] at ht; simp at ht
 
@@ -400,8 +442,9 @@ theorem nothing_after_error (g b : Bool) (c : Conn) (f : Frame) (e : String) (po
   · rw [hs]
   · rw [hs] at h ⊢
     obtain ⟨_, _, _, hcase⟩ := processChunk_spec g b c k
-    rcases hcase with ⟨_, _, hp, _⟩ | ⟨ho, _⟩ | ⟨_, _, _, ho, _⟩ | ⟨_, _, ho, _⟩
+    rcases hcase with ⟨_, _, hp, _⟩ | ⟨ho, _⟩ | ⟨_, _, _, ho, _⟩ | ⟨_, _, ho, _⟩ | ⟨_, _, ho, _⟩
     · exact hp
+    · rw [ho] at h; simp at h
     · rw [ho] at h; simp at h
     · rw [ho] at h; simp at h
     · rw [ho] at h; simp at h
